@@ -648,7 +648,7 @@ class ContGen:
             if "yield" in eff:
                 opts += ["getyield"]
         if depth > 0:
-            opts += ["ite", "call", "seq", "seq", "seq", "userpred"]
+            opts += ["ite", "call", "seq", "seq", "seq", "seq", "seq", "userpred", "userpred"]
             if "yield" in eff and not numeric:
                 opts += ["collect", "take", "innerstate"]
             if "yield" in eff:
@@ -725,7 +725,7 @@ def gen_cont_case(rng, cid, kind=None):
     sh = lambda t: S("shift", t)
     kind = kind or rng.choice(["collect_state", "collect_state", "state_collect", "state_collect", "collect", "take",
                                "sumall", "noreset", "noshift", "law", "nearest", "reuse", "deepchunk"])
-    depth = rng.choice([1, 2, 2, 3, 3, 4])
+    depth = rng.choice([2, 3, 3, 4, 4, 5])
     L, Sv, B, C, K, X, Y, Z = (Vr(n) for n in ("L", "Sv", "B", "C", "K", "X", "Y", "Z"))
     if kind == "collect_state":
         body = conj(P("collect", P("runstate", g.body(depth, {"yield", "state"}), g.num(), Sv), L), S("=", R, S("r", L, Sv)))
@@ -815,6 +815,28 @@ def canon_result(s):
     return "".join(out)
 
 
+def first_arg(s):
+    """the text of the first argument of an argument list (canonical syntax: quotes, parentheses)"""
+    depth, i, n = 0, 0, len(s)
+    while i < n:
+        ch = s[i]
+        if ch == "'" or ch == '"':
+            j = i + 1
+            while j < n and s[j] != ch:
+                j += 2 if s[j] == "\\" else 1
+            i = j
+        elif ch in "([":
+            depth += 1
+        elif ch in ")]":
+            if depth == 0:
+                return s[:i]
+            depth -= 1
+        elif ch == "," and depth == 0:
+            return s[:i]
+        i += 1
+    return s
+
+
 def judge_cont(c, impl, model, findings, stats, verbose=False):
     cid = c["id"]
     keep = {k: c[k] for k in ("id", "fam", "kind", "features", "text", "body", "impl", "model")}
@@ -846,7 +868,7 @@ def judge_cont(c, impl, model, findings, stats, verbose=False):
     elif got.startswith("error("):
         got = canon_result(got)
     if got.startswith("error('error'("):
-        got = "error:" + got[len("error('error'("):].rsplit(",", 1)[0]
+        got = "error:" + first_arg(got[len("error('error'("):])
     rest = parts[1:]
     stats["outcomes"][want.split(":")[0] if want.startswith("error") else ("false" if want == "false" else "success")] = \
         stats["outcomes"].get(want.split(":")[0] if want.startswith("error") else ("false" if want == "false" else "success"), 0) + 1
